@@ -389,6 +389,7 @@ class Registry:
         raise OutOfSubset(f"call of unknown function {n} at line {getattr(node, 'lineno', '?')}")
 
     code_visible_specfuns = set()
+    module_constants = {}   # "module.NAME" -> value, for <imported module>.<CONSTANT> expressions (e.g. re.DOTALL)
     upcasts = {}   # (record type, opaque interface type) -> z3 function: a record viewed as an object of the abstract interface it implements
 
     def instantiate(self, eng, cls, init, args, kwargs, st, node):
@@ -813,7 +814,7 @@ class Registry:
         lineno = getattr(node, "lineno", 0)
         pnames = list(c.params)
         if len(args) > len(pnames):
-            raise ContractDrift(f"{c.key}: too many arguments")
+            raise BindMismatch(f"{c.key}: too many arguments")   # (a ContractDrift) -- lets an alternative contract with more parameters bind
         bound = {}
         for n, a in zip(pnames, args):
             bound[n] = a
